@@ -60,6 +60,7 @@ type reqPlan struct {
 	cancelSeq int64 // 0 = not (yet) cancelled (filled from the context's cancel time after the run)
 	skipped   bool  // not issued because Shutdown had started
 	lc        any
+	startWall time.Time // when the Consume call was made
 }
 
 type exportRec struct {
@@ -165,6 +166,8 @@ type runPlan struct {
 	SharedSpan bool `json:"shared_span"`
 	// Trickle: one caller sends small requests spaced below the timeout for many timeouts
 	Trickle bool `json:"trickle"`
+	// ShutdownAfterUs: with Shutdown == "midstream", how long after the callers started Shutdown is called
+	ShutdownAfterUs int `json:"shutdown_after_us,omitempty"`
 }
 
 var sharedSpanCtx = trace.ContextWithSpanContext(context.Background(), trace.NewSpanContext(trace.SpanContextConfig{
@@ -258,8 +261,14 @@ func genPlan(r *Rng, focus string) *runPlan {
 		// steady trickle: requests keep arriving less than `timeout` apart while the buffer stays below send_batch_size
 		p.Trickle = true
 		*c = sysCfg{Signal: r.Intn(3), SendSize: 100000, MaxSize: 0, TimeoutMs: 20, MaxConc: 0, Early: true, Shutdown: "after"}
+		idleFirst := r.Bool()
 		for q := 0; q < 100; q++ {
-			p.Reqs = append(p.Reqs, &reqPlan{ID: q, Caller: 0, DelayUs: 7000, CtxLabel: q + 1, CancelUs: -1})
+			rp := &reqPlan{ID: q, Caller: 0, DelayUs: 7000, CtxLabel: q + 1, CancelUs: -1}
+			if q == 0 && idleFirst {
+				// the shard sits idle for three timeouts first: its timer fires on an empty buffer before any traffic
+				rp.DelayUs = 3 * c.TimeoutMs * 1000
+			}
+			p.Reqs = append(p.Reqs, rp)
 		}
 		for i := 0; i < 400; i++ {
 			p.Fail = append(p.Fail, false)
@@ -324,6 +333,47 @@ func genPlan(r *Rng, focus string) *runPlan {
 				rp.CancelUs = 200 + r.Intn(4000)
 			}
 		}
+		if r.Bool() {
+			// many acknowledged requests queued or parked in front of a stalled shard when Shutdown arrives
+			// (the shard's channel holds NumCPU items)
+			p.Reqs = nil
+			id := 0
+			nCallers = 6 + r.Intn(4)
+			for cl := 0; cl < nCallers; cl++ {
+				for q := 0; q < 6+r.Intn(5); q++ {
+					p.Reqs = append(p.Reqs, &reqPlan{ID: id, Caller: cl, DelayUs: r.Intn(100), CtxLabel: id + 1, CancelUs: -1})
+					id++
+				}
+			}
+			c.Shutdown = "midstream"
+			c.MetaKeys = nil
+			p.ShutdownAfterUs = 8000 + r.Intn(8000)
+		}
+	}
+	// merge-and-cancel mode (C06): several callers' small requests merged into one slow export, some of the callers'
+	// contexts ending while that export is in flight; the others must still get the outcome of their own items
+	mergeCancel := focus == "C06" && !backlog && !p.Trickle && r.Chance(35)
+	if mergeCancel {
+		c.Early = false
+		c.SendSize = uint32(6 + r.Intn(4))
+		c.MaxSize = 0
+		c.TimeoutMs = 5
+		c.MaxConc = uint32(r.Intn(2))
+		c.Shutdown = "after"
+		c.MetaKeys = nil
+		failPct = 10
+		p.Reqs = nil
+		id := 0
+		for cl := 0; cl < 4+r.Intn(3); cl++ {
+			for q := 0; q < 1+r.Intn(2); q++ {
+				rp := &reqPlan{ID: id, Caller: cl, DelayUs: r.Intn(200), CtxLabel: id + 1, CancelUs: -1}
+				if r.Bool() {
+					rp.CancelUs = 1500 + r.Intn(5000)
+				}
+				p.Reqs = append(p.Reqs, rp)
+				id++
+			}
+		}
 	}
 	nExp := 4 * len(p.Reqs) * 8
 	for i := 0; i < nExp; i++ {
@@ -334,6 +384,9 @@ func genPlan(r *Rng, focus string) *runPlan {
 		}
 		if backlog {
 			lat = 2000 + r.Intn(4000)
+		}
+		if mergeCancel {
+			lat = 3000 + r.Intn(4000)
 		}
 		p.LatUs = append(p.LatUs, lat)
 	}
@@ -354,6 +407,7 @@ type runResult struct {
 	resetAt   time.Time
 	startT    time.Duration // just before proc.Start, on the event log's clock
 	jitter    time.Duration // largest overshoot of a 1 ms sleep measured while the run was executing (scheduler load)
+	shutWall  time.Time     // when Shutdown was called
 }
 
 func comboKey(keys []string, meta map[string][]string) string {
@@ -432,6 +486,7 @@ func execPlan(p *runPlan) *runResult {
 			sk.mu.Unlock()
 			register(td, rp, fo)
 			rp.start = atomic.AddInt64(&seq, 1)
+			rp.startWall = time.Now()
 			return tp.ConsumeTraces(ctx, td)
 		}
 	case 1:
@@ -448,6 +503,7 @@ func execPlan(p *runPlan) *runResult {
 			sk.mu.Unlock()
 			register(ld, rp, fo)
 			rp.start = atomic.AddInt64(&seq, 1)
+			rp.startWall = time.Now()
 			return lp.ConsumeLogs(ctx, ld)
 		}
 	default:
@@ -464,6 +520,7 @@ func execPlan(p *runPlan) *runResult {
 			sk.mu.Unlock()
 			register(md, rp, fo)
 			rp.start = atomic.AddInt64(&seq, 1)
+			rp.startWall = time.Now()
 			return mp.ConsumeMetrics(ctx, md)
 		}
 	}
@@ -570,7 +627,10 @@ func execPlan(p *runPlan) *runResult {
 		n := runtime.Stack(buf, true)
 		res.hang = what + "\n" + string(buf[:n])
 	}
-	if p.Cfg.Shutdown == "after" {
+	if p.Cfg.Shutdown == "midstream" {
+		// Shutdown arrives while callers are still busy (some parked on the shard's full channel): no waiting for them
+		time.Sleep(time.Duration(p.ShutdownAfterUs) * time.Microsecond)
+	} else if p.Cfg.Shutdown == "after" {
 		select {
 		case <-done:
 		case <-time.After(20 * time.Second):
@@ -611,6 +671,7 @@ func execPlan(p *runPlan) *runResult {
 		}
 	}
 	atomic.StoreInt64(&shutFlag, 1)
+	res.shutWall = time.Now()
 	res.shutStart = atomic.AddInt64(&seq, 1)
 	sd := make(chan struct{})
 	go func() { _ = proc.Shutdown(context.Background()); close(sd) }()
@@ -723,8 +784,12 @@ func validate(res *runResult, out *Output, run int, stats map[string]int) {
 	}
 	// a call that returned nil before Shutdown was called has been accepted, whether or not a shard has
 	// taken the request off its channel yet (early_return acknowledges on queueing)
+	margin := 5*time.Millisecond + 4*res.jitter
 	for _, rp := range p.Reqs {
-		if rp.returned && !rp.skipped && rp.err == nil && rp.Items > 0 && rp.end != 0 && rp.end < res.shutStart && !accepted[rp.ID] && res.hang == "" {
+		// a call made well before Shutdown was called (it had all the time to reach the shard's channel: it was queued or parked
+		// on it when Shutdown came) and acknowledged with nil belongs to what Shutdown must drain
+		parkedBefore := !rp.startWall.IsZero() && !res.shutWall.IsZero() && rp.startWall.Add(margin).Before(res.shutWall)
+		if rp.returned && !rp.skipped && rp.err == nil && rp.Items > 0 && rp.end != 0 && (rp.end < res.shutStart || parkedBefore) && !accepted[rp.ID] && res.hang == "" {
 			c.fail("C05", "acknowledged-request-dropped", fmt.Sprintf("request %d (%d items) was acknowledged with nil before Shutdown was called but never reached a shard: its items are lost (early_return=%v, context cancelled=%v)", rp.ID, rp.Items, p.Cfg.Early, rp.CancelUs >= 0))
 		}
 	}
